@@ -11,6 +11,7 @@ CONSTANTS
  FP <- FPcollide
  MaxOps = 2
  MaxCount = 0
+ WithScan = TRUE
  AllowClose = FALSE
  Dev = {}
  MaxHist = 0
